@@ -274,7 +274,16 @@ func cmdCheck(args []string) int {
 				ue.uncovered(r.Outcome + ": " + r.Msg)
 			case "panic", "exit":
 				if u.Panic == "violation" {
-					add(caseKey{u.Name, "panic", "", "panic"}, r, -1)
+					tag := ""
+					for _, nt := range r.Notes {
+						if strings.HasPrefix(nt, "known-if-panic=") {
+							tag = nt
+						}
+					}
+					if tag == "" {
+						tag = r.Msg
+					}
+					add(caseKey{u.Name, "panic", tag, "panic"}, r, -1)
 				} else {
 					ue.uncovered("panic in code under test (reported by C18/C19 harnesses): " + r.Msg)
 				}
@@ -429,6 +438,17 @@ func cmdCheck(args []string) int {
 			case k.status == "panic":
 				if res.Panicked {
 					ev.ReplaysReproduced++
+					knownDev := ""
+					for _, nt := range r.Notes {
+						if strings.HasPrefix(nt, "known-if-panic=") {
+							knownDev = strings.TrimPrefix(nt, "known-if-panic=")
+						}
+					}
+					if f := findings.open(id, knownDev); knownDev != "" && f != nil {
+						knownSeen[knownDev] = f.What
+						ue.known(caseKey{u.Name, "panic", knownDev, "panic"}, len(c.paths), rp.Dir)
+						continue
+					}
 					violationLines = append(violationLines, fmt.Sprintf("VIOLATION property=%s replay=%s", id, rp.Dir))
 					ue.violation(k, len(c.paths), rp.Dir, r.Msg)
 				} else {
